@@ -11,6 +11,7 @@ Oracle: prefix -> must raise (EOFError only for the empty prefix); structural ->
 is well-formed (tskit.load: passes the C02 validity predicate) and dump->load is the identity.
 """
 import os
+import pathlib
 import struct
 import tempfile
 
@@ -127,7 +128,19 @@ LOADERS = {
     "TableCollection.load": lambda p: tskit.TableCollection.load(p),
     "tskit.load(skip_tables)": lambda p: tskit.load(p, skip_tables=True),
     "TableCollection.load(skip_reference_sequence)": lambda p: tskit.TableCollection.load(p, skip_reference_sequence=True),
+    # the remaining option combinations and argument forms of the two public loaders
+    "tskit.load(skip_reference_sequence)": lambda p: tskit.load(p, skip_reference_sequence=True),
+    "TableCollection.load(skip_tables)": lambda p: tskit.TableCollection.load(p, skip_tables=True),
+    "tskit.load(skip_tables,skip_reference_sequence)": lambda p: tskit.load(p, skip_tables=True, skip_reference_sequence=True),
+    "tskit.load(fileobj)": lambda p: _with_file(p, tskit.load),
+    "TableCollection.load(fileobj)": lambda p: _with_file(p, tskit.TableCollection.load),
+    "tskit.load(pathlib)": lambda p: tskit.load(pathlib.Path(p)),
 }
+
+
+def _with_file(p, fn):
+    with open(p, "rb") as f:
+        return fn(f)
 
 
 def cases(tier, seed):
